@@ -92,6 +92,13 @@ class Monitor:
                     else:
                         conds.append(_same(ctx, arr, cp))
             ctx.claim(f'no_mutation:{name}:contents', ctx.all_(conds) if conds else True)
+        if name == 'core_stab' and isinstance(res, tuple) and isinstance(args[0], np.ndarray):
+            # documented pass-through: only below the threshold
+            G = args[0]
+            thr = kwargs.get('thr', args[2] if len(args) > 2 else 1.E-100)
+            if isinstance(res[0], np.ndarray) and res[0].size and np.shares_memory(res[0], G):
+                m = ctx.max_([abs(x) for x in G.reshape(-1)])
+                ctx.claim('pass_through_only_below_threshold:core_stab', ctx.le(m, thr))
         if name not in PASS_THROUGH and not inplace:
             outs = _arrays_of(res, 'res')
             alias = False
